@@ -179,6 +179,58 @@ func shapeScripts(seed int64) []Driver {
 				}
 			}
 		}
+		// a raw tunnel server answers a non-streaming-response call with two messages and leaves the
+		// stream open: the caller gets an error, and the RPC must be cancelled and forgotten
+		for _, shape := range []string{"U", "CS"} {
+			for _, early := range []bool{true, false} {
+				l := []string{"open t=0 md=who=s peer=p0", "raws t=0 kind=settings id=-1 revs=0,1 win=65536", "ds t=0",
+					fmt.Sprintf("cnew r=0 t=0 shape=%s method=auto md=-", shape), "dc t=0", "csend r=0 size=30", "cclose r=0", "dc t=0", "dc t=0"}
+				if early {
+					l = append(l, "crecv r=0")
+				}
+				l = append(l, "raws t=0 id=1 kind=hdrs md=h=1", "raws t=0 id=1 kind=msg size=9 len=9", "raws t=0 id=1 kind=msg size=8 len=8",
+					"ds t=0", "ds t=0", "ds t=0", "crecv r=0", "crecv r=0", "ctrl r=0", "dc t=0", "probe", "probe")
+				add(Config{Mode: mode, RawServer: true}, l)
+			}
+		}
+		// the response of a non-streaming-response call has arrived, the close frame has not, and the
+		// tunnel ends: the caller must not be told success (raw tunnel server; also through Invoke)
+		for _, shape := range []string{"U", "CS"} {
+			for _, end := range []string{"fail", "chclose", "ctxend"} {
+				for _, how := range []string{"early", "late", "invoke"} {
+					if how == "invoke" && shape != "U" {
+						continue
+					}
+					l := []string{"open t=0 md=who=s peer=p0", "raws t=0 kind=settings id=-1 revs=0,1 win=65536", "ds t=0"}
+					if how == "invoke" {
+						l = append(l, "cinvoke r=0 t=0 size=30 md=-", "dc t=0", "dc t=0", "dc t=0")
+					} else {
+						l = append(l, fmt.Sprintf("cnew r=0 t=0 shape=%s method=auto md=-", shape), "dc t=0", "csend r=0 size=30", "cclose r=0", "dc t=0", "dc t=0")
+					}
+					if how == "early" {
+						l = append(l, "crecv r=0")
+					}
+					l = append(l, "raws t=0 id=1 kind=hdrs md=h=1", "raws t=0 id=1 kind=msg size=9 len=9", "ds t=0", "ds t=0")
+					if how == "late" {
+						l = append(l, "crecv r=0")
+					}
+					l = append(l, end+" t=0")
+					if how != "invoke" {
+						l = append(l, "crecv r=0", "crecv r=0", "ctrl r=0")
+					}
+					add(Config{Mode: mode, RawServer: true}, l)
+				}
+			}
+		}
+	}
+	// a reverse-tunnel server that has been stopped still polices stream ids while the peer stays
+	// connected: an id that is not greater than all it has seen ends the tunnel with an error, and
+	// Serve reports it (raw tunnel client)
+	for _, second := range []string{"3", "5"} {
+		l := []string{"open t=0 md=who=s peer=p0", "ds t=0",
+			"rawc t=0 id=5 kind=new method=%2Fv.S%2FBD0 rev=1 win=65536 md=-", "dc t=0", "stop",
+			"rawc t=0 id=" + second + " kind=new method=%2Fv.S%2FBD1 rev=1 win=65536 md=-", "dc t=0", "ds t=0", "ds t=0", "ds t=0"}
+		add(Config{Mode: "rev", RawClient: true}, l)
 	}
 	return out
 }
